@@ -1699,6 +1699,138 @@ fn run_client(c: &ClientCase, obs: &mut Obs) -> CheckResult {
     Ok(())
 }
 
+//============ sub-check: foreign ================================================
+//
+// PDUs written octet by octet by the harness, as a foreign cache or router would put
+// them on the wire: well-formed (type, length rule, version 2) but not producible
+// through the library's constructors — in particular ASPA PDUs with more providers
+// than `ProviderAsns::try_from_iter` admits (16380): the length field has 32 bits and
+// the provider count is not limited by the wire format. A reader may refuse such a PDU
+// (error within the byte bound) or return it; if it returns it, it has consumed exactly
+// the announced length, the value carries exactly the providers on the wire, and the
+// next PDU of the stream is read intact.
+
+#[derive(Clone, Debug, Serialize, Deserialize)]
+pub struct ForeignCase {
+    pub flags: u8,
+    pub customer: u32,
+    pub count: u32,
+    pub seed: u32,
+    pub chunks: Vec<u8>,
+    /// octet 3 of the header (reserved, zero on the wire today)
+    pub reserved: u8,
+}
+
+const FOREIGN_COUNTS: [u32; 22] = [
+    0, 1, 2, 16_379, 16_380, 16_381, 16_382, 16_383, 16_384, 20_000, 32_767, 32_768, 65_534, 65_535, 65_536, 65_537, 65_539, 70_000,
+    131_071, 131_072, 131_073, 200_000,
+];
+
+fn foreign_strategy(_: Tier) -> BoxedStrategy<ForeignCase> {
+    (
+        prop_oneof![4 => Just(0u8), 4 => Just(1u8), 1 => any::<u8>()],
+        dense_u32(),
+        prop_oneof![
+            6 => (0usize..FOREIGN_COUNTS.len()).prop_map(|i| FOREIGN_COUNTS[i]),
+            2 => 0u32..40,
+            2 => 16_000u32..17_000,
+            1 => 65_000u32..66_000,
+            1 => 0u32..210_000,
+        ],
+        any::<u32>(),
+        prop_oneof![3 => Just(vec![0u8]), 2 => chunks_s(), 1 => Just(vec![255u8, 0])],
+        prop_oneof![9 => Just(0u8), 1 => any::<u8>()],
+    )
+        .prop_map(|(flags, customer, count, seed, chunks, reserved)| ForeignCase { flags, customer, count, seed, chunks, reserved })
+        .boxed()
+}
+
+fn run_foreign(c: &ForeignCase, obs: &mut Obs) -> CheckResult {
+    ensure!(c.count <= 250_000, "malformed case: {} providers", c.count);
+    let len = 12u32 + 4 * c.count;
+    let mut stream = vec![2u8, T_ASPA, c.flags, c.reserved];
+    stream.extend_from_slice(&len.to_be_bytes());
+    stream.extend_from_slice(&c.customer.to_be_bytes());
+    let provs: Vec<u32> = (0..c.count).map(|i| c.seed.wrapping_add(i.wrapping_mul(2_654_435_761))).collect();
+    for p in &provs {
+        stream.extend_from_slice(&p.to_be_bytes());
+    }
+    // the PDU behind it: an IPv4 prefix, announce, 192.0.2.0/24-24 AS 64496
+    let tail: [u8; 20] = [2, T_V4, 0, 0, 0, 0, 0, 20, 1, 24, 24, 0, 192, 0, 2, 0, 0, 0, 0xFB, 0xF0];
+    stream.extend_from_slice(&tail);
+    obs.label(match c.count {
+        0..=16_380 => "providers<=16380",
+        16_381..=65_535 => "providers-16381..65535",
+        _ => "providers>=65536",
+    });
+    obs.label_if(c.chunks != [0u8], "chunked-reads");
+    obs.nontrivial_if(c.count > 16_380);
+    for &rd in readers_for(Kind::Aspa) {
+        let mut r = MemReader::new(&stream, &c.chunks);
+        let got = run_reader(rd, Kind::Aspa, &mut r)?;
+        let what = format!("foreign ASPA PDU with {} providers (length field {}) through {:?}", c.count, len, rd);
+        ensure!(!r.aborted && r.eof_polls <= EOF_POLL_LIMIT, "{}: reader polled the exhausted stream {} times", what, r.eof_polls);
+        match got {
+            Got::Io(_) => {
+                label_once(obs, "refused");
+                ensure!(
+                    r.served() <= len as usize,
+                    "{}: failed after consuming {} octets, more than the announced length",
+                    what, r.served()
+                );
+                // only what the constructors cannot build, or a non-zero reserved octet, may be refused
+                ensure!(
+                    c.count as usize > pdu::ProviderAsns::MAX_COUNT || c.reserved != 0 || c.flags > 1,
+                    "{}: a PDU the library's own constructor produces octet for octet was refused",
+                    what
+                );
+            }
+            Got::Pdu(Lib::Aspa(p)) => {
+                label_once(obs, "returned");
+                ensure_sig!(
+                    r.served() == len as usize,
+                    "c07:foreign-aspa-framing",
+                    "{}: returned a PDU after consuming {} octets; the PDU is {} octets long, the stream is out of step from here on",
+                    what, r.served(), len
+                );
+                let got: Vec<u32> = p.providers().iter().map(|a| a.into_u32()).collect();
+                ensure_sig!(
+                    got == provs,
+                    "c07:foreign-aspa-providers",
+                    "{}: the PDU read carries {} providers, {} were on the wire (first difference at index {:?})",
+                    what, got.len(), provs.len(), got.iter().zip(provs.iter()).position(|(a, b)| a != b)
+                );
+                ensure!(
+                    p.version() == 2 && p.flags() == c.flags && p.customer() == Asn::from_u32(c.customer) && p.size() == len
+                        && p.providers().len() == 4 * c.count as usize,
+                    "{}: accessors of the PDU read: version {} flags {} customer {} size {} providers().len() {}",
+                    what, p.version(), p.flags(), p.customer(), p.size(), p.providers().len()
+                );
+                // written again it is the same PDU
+                let back = Lib::Aspa(p.clone()).write()?;
+                ensure!(back == stream[..len as usize], "{}: the PDU read, written again, differs from the octets it was read from", what);
+                // and the stream continues with the next PDU
+                match run_reader(Rd::Read, Kind::V4, &mut r)? {
+                    Got::Pdu(Lib::V4(v)) => {
+                        let mut out = Vec::new();
+                        drive("write", v.write(&mut out))?.map_err(|e| Fail::new(e.to_string()))?;
+                        ensure_sig!(out == tail, "c07:foreign-aspa-framing", "{}: the PDU behind it was read as {:?}", what, v);
+                    }
+                    other => {
+                        return Err(Fail::sig(
+                            "c07:foreign-aspa-framing",
+                            format!("{}: the IPv4 prefix PDU behind it could not be read: {}", what, got_name(&other)),
+                        ))
+                    }
+                }
+            }
+            other => return Err(Fail::new(format!("{}: unexpected outcome {}", what, got_name(&other)))),
+        }
+    }
+    Ok(())
+}
+
+
 //------------ property ---------------------------------------------------------
 
 const KIND_FLOORS: &[(&str, f64)] = &[
@@ -1754,6 +1886,14 @@ pub fn property() -> Property {
             }
             .boxed(),
             EnumSub { name: "header-enum", count: count_enum, make: make_enum, run: run_corrupt, exhaustive: true }.boxed(),
+            PropSub {
+                name: "foreign",
+                strategy: foreign_strategy,
+                cases: |t| t.pick(30_000, 300_000),
+                run: run_foreign,
+                floors: &[("providers<=16380", 0.2), ("providers-16381..65535", 0.15), ("providers>=65536", 0.2), ("returned", 0.2), ("chunked-reads", 0.3)],
+            }
+            .boxed(),
             PropSub {
                 name: "client",
                 strategy: client_strategy,
